@@ -18,16 +18,26 @@ checks = {
          "Every operation sequence over a colliding 22-op alphabet up to the stated depth is executed on the real mem and file stores and compared step by step with an ordered-mailbox model; deeper layers by explicit-state search on the abstract state; plus every op pair from an 11-message mailbox.", "Trusted: model.Store as the specification; ids abstracted by arrival ordinal; I/O errors outside the model.", "3.C07"),
  "C08": ("exploration", "bounded-exhaustive enumeration of sized delivery/removal histories × limit configurations, real stores vs eviction model",
          "All histories of sized adds/removes/purges up to the bound under every combination of cap and size limit are run on the real stores and compared with the eviction model after every step; a crash of the enforcer goroutine is caught as a process crash of the worker.", "Trusted: model.Store eviction rule; mem eviction is synchronous with AddMessage.", "3.C08"),
+ "C09": ("model_checking", "stateless DFS over all schedules of the real goroutines under a controlled scheduler (testing/synctest + AST-instrumented sync/channel/go sites + runtime select/map patches), iterative preemption bounding; linearizability of every schedule's history checked with porcupine; free-running -race pass",
+         "Every schedule within the preemption bound of 11 small scenarios on the real stores (with their background goroutines) is executed; each must finish, not panic, and be linearizable w.r.t. the store model including a final listing.", "Trusted: DRF atomicity between scheduling points (guarded by the -race pass), synctest, two runtime patches, porcupine.", "3.C09"),
  "C10": ("exploration", "bounded-exhaustive enumeration of store histories with close/reopen at every position, file store vs model",
          "All sequences over the C07 alphabet plus reopen and retention-scan, reopen allowed at every position any number of times; reopen must be the identity on the model with concrete ids.", "Trusted: restart is modelled as constructing a new file.Store on the same directory.", "3.C10"),
  "C11": ("fault_enumeration", "exhaustive crash-point enumeration: real syscalls of the real file-store write path recorded with strace; every syscall prefix, every byte-torn index write and every unlink subset materialised as a directory image and recovered with the real store",
          "For every bounded history the last operation's recorded file-system effects are cut at every point (syscall granularity, byte granularity inside index writes, all subsets of RemoveAll's sibling unlinks); each image is recovered by a fresh real store and checked for readability, integrity of untouched data, atomicity of the interrupted operation and acceptance of new mail.", "Trusted: process-death fault model (no fsync in the store, no power-loss reordering); strace's log; unknown mutating syscalls fail the check loudly.", "3.C11"),
+ "C12": ("model_checking", "exact-clock exhaustive enumeration of age assignments in synctest bubbles + stateless DFS over all schedules (preemption-bounded, fake-clock ticks and multi-ready selects as explicit events) of the real retention scanner against deliveries, removals and cancellation",
+         "Sequential: every age assignment around the cutoff at 1ns resolution; concurrent: every schedule of DoScan/Start/Join against a deliverer, a remover and a canceller on both stores.", "Trusted: fake clock; scheduler assumptions as C09.", "3.C12"),
  "C13": ("exploration", "bounded-exhaustive enumeration of POP3 command sequences with external mutations as events (full tree + explicit-state search), real session code in synctest bubbles vs POP3 snapshot model; every prefix doubles as the dropped-connection case",
          "All sequences over a 59-element alphabet; STAT/LIST/UIDL/RETR/TOP/DELE/RSET pinned against the login-time snapshot; commit rule checked after every sequence.", "Trusted: AUTHORIZATION-state replies not pinned; synctest; go1.26.8.", "3.C13"),
  "C14": ("exploration", "bounded-exhaustive enumeration of API call sequences mixed with deliveries × mailbox names × backend × base path through the real router and the bundled Go client",
          "Every sequence over a 32-op alphabet; status, body and the store's own state after every call.", "Trusted: percent-encoding client; panics caught at ServeHTTP.", "3.C14"),
+ "C15": ("model_checking", "bounded-exhaustive hub operation sequences in synctest bubbles vs hub model + stateless DFS over all schedules of hub ∥ dispatcher ∥ healthy listeners ∥ failing/slow/closing real socket listeners",
+         "Sequential semantics by exhaustive sequences with the real listeners; failure timing by exhaustive schedules within the preemption bound.", "Trusted: WSWriter replaced by a harness consumer through the verif hook; scheduler assumptions as C09.", "3.C15"),
+ "C16": ("model_checking", "bounded-exhaustive histories × limits × backends with events counted at exact quiescence (synctest) + stateless DFS over all schedules of the asynchronous event dispatch with a scheduling point inside the listener body",
+         "Accounting: stored − deleted must equal the store's listing after every step; ordering: no overlapping invocation, stored before deleted, delivery order, over all schedules.", "Trusted: accounting is relative to the store's own listing; scheduler assumptions as C09.", "3.C16"),
  "C17": ("exploration", "exhaustive enumeration of Lua scripts from a handler grammar × SMTP dialogues on live sessions vs a hook-decision model",
          "Every script of the grammar (singles+pairs quick, full product thorough) × 10 dialogues, plus Go listeners before/after the Lua one.", "Trusted: the grammar's declared semantics per variant.", "3.C17"),
+ "C19": ("model_checking", "stateless DFS over all schedules (preemption-bounded) of the assembled real services (smtp/pop3 Start, serve, sessions, Drain on an in-memory listener; hub; retention scanner) with clients, a canceller, drainers and a late client",
+         "Cancel is placed at every protocol state of an open session and Drain/Join/late dial are ordered in every way within the bound; oracle uses the client-observable definition of an open session (greeting received).", "Trusted: in-memory listener refuses dials after Close like TCP; scheduler assumptions as C09; TLS not exercised.", "3.C19"),
  "C18": ("exploration", "exhaustive enumeration of HTML / CSS / text token sequences through the real sanitiser, output re-parsed by an independent HTML parser and an independent CSS-Syntax-3 declaration parser",
          "Every token sequence to the bound is sanitised and the re-parsed output checked for forbidden elements, handlers, javascript: URLs and non-allow-listed style properties; TextToHTML output must re-parse to the original text.", "Trusted: x/net/html as the browser's parser; the CSS oracle.", "3.C18"),
 }
@@ -50,6 +60,7 @@ m = {
  },
  "engines": [
    {"name": "crashx", "path": "checks/c11.go", "serves_properties": ["C11"], "kind_free_text": "strace-recorded syscall log of the real write path → file-system effect replayer → exhaustive crash images (prefixes, torn writes, unlink subsets) → recovery with the real store"},
+   {"name": "schedx", "path": "engine/ + checks/schedx.go", "serves_properties": ["C09","C12","C15","C16","C17","C19"], "kind_free_text": "hand-written stateless model checker for Go: controlled scheduler on testing/synctest (engine/vrt/vsched), sync/net shims (vsync, vnet), go/ast instrumenter producing a -overlay of every file under /repo/pkg from the working tree at check time, runtime patches for select and map iteration, DFS with iterative preemption bounding, replay-twice determinism check"},
    {"name": "seqx", "path": "fw/seq.go", "serves_properties": sorted(checks), "kind_free_text": "bounded-exhaustive operation-sequence / input explorer with explicit-state deduplication over the real implementation, compared with Go reference models; sessions run in testing/synctest bubbles where exact quiescence is needed"},
  ],
  "checks": [],
@@ -63,7 +74,7 @@ for cid,(lvl,tech,text,note,ref) in sorted(checks.items()):
       "thorough_cmd": f"./verif.sh check {cid} --tier thorough",
       "evidence_file": f"/verif/evidence/{cid}.json",
       "replay_cmd_template": f"./verif.sh replay {cid} {{path}}",
-      "engine": "crashx" if cid == "C11" else "seqx",
+      "engine": "crashx" if cid == "C11" else ("schedx" if cid in ("C09","C12","C15","C16","C19") else "seqx"),
       "level_claimed": {"category": lvl, "text": text, "design_ref": ref},
       "level_note": note,
       "technique": tech,
